@@ -418,6 +418,14 @@ func genC05(seed uint64, idx int) *Plan {
 		at := (idx / 6) % (len(p.Keys) + 1)
 		p.Keys = append(p.Keys[:at:at], append([]KeySpec{o}, p.Keys[at:]...)...)
 	}
+	if p.Grease && p.TLS13 && len(p.Keys) > 0 && idx%6 == 3 {
+		// the first key's config lists a suite whose KDF (or AEAD) the library does
+		// not implement, and the GREASE extension happens to name that id and suite
+		o := KeySpec{ID: p.Target.ID + 77, PublicName: p.Target.PublicName, KeySeed: p.Target.KeySeed + 6161,
+			Suites: []echbox.Suite{[]echbox.Suite{{KDF: 2, AEAD: 1}, {KDF: 3, AEAD: 3}, {KDF: 1, AEAD: 0xffff}, {KDF: 0x7f7f, AEAD: 2}}[(idx/6)%4], {KDF: 1, AEAD: 1}}}
+		p.Keys = append([]KeySpec{o}, p.Keys...)
+		p.GreaseNamesBadKey = true
+	}
 	if len(p.Keys) > 0 && idx%6 == 4 {
 		// the key list also holds a slot that is a zero Key (or a config cut short)
 		o := KeySpec{ID: p.Target.ID + 55, PublicName: p.Target.PublicName, Suites: append([]echbox.Suite(nil), echbox.AllSuites...), KeySeed: p.Target.KeySeed + 5151, BadConfig: true, Empty: (idx/6)%3 != 2}
